@@ -13,6 +13,9 @@ klass(F, "DefaultQueue",
               "_inferral_expanded": Set(Int), "_initial_expanded": Set(Int), "ignore": Set(Int),
               "queue_sizes": List(Int), "staging": Deque(WorkPacket)},
       properties=["levels_completed"],
+      # `for packet in queue`: the queue seen by a consumer is abstracted to the arbitrary sequence of packets it will
+      # hand out (ghost); DefaultQueue.__next__ itself is verified separately (C16)
+      ghost_fields={"future": Seq(WorkPacket)}, iter_delegate="future",
       invariant=["not same(self._inferral_expanded, self._initial_expanded)", "not same(self._inferral_expanded, self.ignore)",
                  "not same(self._initial_expanded, self.ignore)",
                  "len(self.curr_level) == len(self.expansion_strats) + 1",
